@@ -64,6 +64,21 @@ def showFault : Fault → String
   | .oobRead s => s!"fault oob-read {s}"
   | .oobWrite s => s!"fault oob-write {s}"
 
+/-- the per-interface record as the model holds it (same line as the harness prints through the state-view hook) -/
+def showSt (I : Nat) (st : Option St) : String :=
+  match st with
+  | none => s!"st {I} none"
+  | some s =>
+    let icon := match s.icon with | some ic => toString ic.length | none => "none"
+    let isz := match s.icon with | some ic => ic.length | none => 0
+    let head := match s.sees with | o :: _ => toHex (obsWire o) | [] => "-"
+    s!"st {I} known={if s.known then 1 else 0} real={toHex s.mapperReal} app={toHex s.mapperApparent} seq={s.seq} gt={s.genTopo} gq={s.genQuick} icon={icon} isz={isz} count={s.count} n={s.sees.length} head={head}"
+
+def showObsAll (I : Nat) (st : Option St) : List String :=
+  match st with
+  | none => []
+  | some s => (List.range s.sees.length).zip s.sees |>.map (fun (k, o) => s!"obs {I} {k} {toHex (obsWire o)}")
+
 /-- returns none for a malformed op -/
 def blockStep (w : World) (b : BlockSide) (toks : List String)
     (getMap getSess : Nat → Option Fsm) (getTbl : Nat → Option Table) :
@@ -96,7 +111,11 @@ def blockStep (w : World) (b : BlockSide) (toks : List String)
     let img := recvInto rec.img frame zero
     let (st, w, fx, flt) := parseFrame rec.cfg b.glob w rec.st img
     some (w, { b with ifs := b.ifs.set! I (some { rec with img := img, st := st }), curTx := b.curTx ++ sentOf fx },
-          fx.map showFx ++ (match flt with | some f => [showFault f] | none => []), [])
+          fx.map showFx ++ (match flt with | some f => [showFault f] | none => []) ++ [showSt I st], [])
+  | ["dump", i] =>
+    (parseIdx i 8).bind fun I =>
+    (b.ifs[I]?.getD none).bind fun rec =>
+    some (w, b, showObsAll I rec.st ++ [showSt I rec.st], [])
   | ["note", _] => some (w, b, ["ok"], [])
   | "relay" :: a :: bb :: rest =>
     (parseIdx a 8).bind fun A =>
@@ -114,7 +133,7 @@ def blockStep (w : World) (b : BlockSide) (toks : List String)
         let (st, w, fx, flt) := parseFrame rec.cfg b.glob w rec.st img
         (w, { b with ifs := b.ifs.set! Bi (some { rec with img := img, st := st }), curTx := b.curTx ++ sentOf fx },
          out ++ [s!"deliver {Bi} {toHex frame}"] ++ fx.map showFx ++ (match flt with | some f => [showFault f] | none => []))) (w, b, [])
-    some (r.1, r.2.1, r.2.2, [])
+    some (r.1, r.2.1, r.2.2 ++ [showSt Bi (((r.2.1.ifs[Bi]?.getD none).map (·.st)).getD none)], [])
   | "linuxrx" :: i :: m :: s :: hex :: rest =>
     (parseIdx i 8).bind fun I =>
     (parseIdx m 16).bind fun M =>
@@ -131,7 +150,7 @@ def blockStep (w : World) (b : BlockSide) (toks : List String)
     let fs' := stepSession fs op w.nowS
     let (st, w, fx, flt) := parseFrame rec.cfg b.glob w rec.st img
     some (w, { b with ifs := b.ifs.set! I (some { rec with img := img, st := st }), curTx := b.curTx ++ sentOf fx },
-          fx.map showFx ++ (match flt with | some f => [showFault f] | none => []), [(M, fm'), (S, fs')])
+          fx.map showFx ++ (match flt with | some f => [showFault f] | none => []) ++ [showSt I st], [(M, fm'), (S, fs')])
   | ["ev", i, hex, av, tb] =>
     (parseIdx i 8).bind fun I =>
     (b.ifs[I]?.getD none).bind fun rec =>
